@@ -109,3 +109,30 @@ Definition spec_meta (i : N * prog) : val :=
        enc_nlist (nodup_sorted (sortN (map fst (sourcings p))));
        enc_nlist (nodup_sorted (sortN (direct_inherits p)));
        VL (map VS (spec_phases eapi p)) ].
+
+(* ---------------------------------------------------------------- the known-finding class *)
+(* [clean v]: no `unset v` anywhere in this code or in what it inherits *)
+Fixpoint clean_op (v : var) (o : op) : bool :=
+  match o with
+  | Unset w => negb (N.eqb w v)
+  | Inherit es => clean_ecls v es
+  | _ => true
+  end
+with clean_prog (v : var) (p : prog) : bool :=
+  match p with PNil => true | PCons o p' => clean_op v o && clean_prog v p' end
+with clean_ecls (v : var) (es : ecls) : bool :=
+  match es with ENil => true | ECons _ b r => clean_prog v b && clean_ecls v r end.
+
+(* no sourced ECLASS unsets v (the ebuild itself may) *)
+Fixpoint no_eclass_unset (v : var) (p : prog) : bool :=
+  match p with
+  | PNil => true
+  | PCons (Inherit es) p' => clean_ecls v es && no_eclass_unset v p'
+  | PCons _ p' => no_eclass_unset v p'
+  end.
+
+(* the accumulated value of v can be disturbed when an eclass unsets v, or (RDEPEND default of
+   EAPI 0-3) when an eclass unsets DEPEND *)
+Definition known_class (eapi : N) (v : var) (p : prog) : bool :=
+  negb (no_eclass_unset v p)
+  || (N.eqb v vRDEPEND && N.leb eapi 3 && negb (no_eclass_unset vDEPEND p)).
